@@ -350,4 +350,12 @@ example :
     listFilesCmd skipEmpty plP mvGood none = .ok [(snapshotName mvNew, sec 50), (snapshotName mvOld, sec 50)] := by
   decide +kernel
 
+/-- **No verification step lives inside an `assert`.**  An interpreter started with `-O` / `PYTHONOPTIMIZE` does not compile `assert`
+statements; every theorem above speaks about the code only if the checks it models are executed by every interpreter.  Read from the
+package's non-test sources on every run (`tools/sections/04_asserts.py`): no `assert` statement's test or message calls a function
+defined in the package, awaits, assigns or yields (the remaining ones are preconditions on plain values).  `assert self._verify_chunk(…)`
+makes this stop compiling; the harness side restores the damaged repositories under `-O` as well. -/
+theorem verification_not_in_asserts :
+    Gen.assertsCarryNoLogic = true ∧ Gen.assertsWithPackageCalls = 0 := by decide
+
 end Replicat.C04
